@@ -185,3 +185,66 @@ def _segment(lines, n):
         parts.append(lines[k])
     parts.append(lines[n.end_lineno - 1].encode("utf-8")[:n.end_col_offset].decode("utf-8"))
     return "\n".join(parts)
+
+
+# --------------------------------------------------------------------------------------------------
+# frame audit: a method is a pure observer (writes no attribute, subscript or global; all methods it calls are pure)
+# --------------------------------------------------------------------------------------------------
+_PURE_BUILTINS = {"abs", "float", "int", "len", "min", "max", "round", "isinstance", "bool", "tuple", "list", "range",
+                  "sum", "sqrt", "cos", "sin", "tan", "atan", "atan2", "acos", "asin", "hypot", "radians", "degrees",
+                  "ceil", "floor", "pow", "str", "hasattr", "complex", "zip", "enumerate", "sorted", "reversed", "all",
+                  "any", "type", "getattr", "copy", "id", "iter", "next", "divmod", "fabs", "log", "exp", "isnan"}
+_pure_cache = {}
+
+
+def _methods_named(tree, name):
+    out = []
+    for node in tree.body:
+        if isinstance(node, ast.ClassDef):
+            for s in node.body:
+                if isinstance(s, ast.FunctionDef) and s.name == name:
+                    out.append((node.name + "." + name, s))
+        elif isinstance(node, ast.FunctionDef) and node.name == name:
+            out.append((name, node))
+    return out
+
+
+def audit_pure(tree, qual):
+    """raises NotElementwise unless `qual` and, transitively, every function or method *of any class* whose name it
+    calls, contain no store to an attribute or a subscript, no del, no global/nonlocal.  Constructors of the module's
+    classes may be called (a new object is not shared state).  The audit over-approximates the call graph by name."""
+    key = (id(tree), qual)
+    if key in _pure_cache:
+        ok, why = _pure_cache[key]
+        if not ok:
+            raise NotElementwise(why)
+        return True
+    classes = {n.name for n in tree.body if isinstance(n, ast.ClassDef)}
+    seen, work = set(), [(qual, find_function(tree, qual))]
+    why = None
+    while work and why is None:
+        q, fn = work.pop()
+        if q in seen:
+            continue
+        seen.add(q)
+        for n in ast.walk(fn):
+            if isinstance(n, (ast.Attribute, ast.Subscript)) and isinstance(n.ctx, (ast.Store, ast.Del)):
+                why = "%s writes %s (line %d): not a pure observer" % (q, ast.dump(n)[:60], n.lineno)
+                break
+            if isinstance(n, (ast.Global, ast.Nonlocal)):
+                why = "%s declares global/nonlocal names" % q
+                break
+            if isinstance(n, ast.Call):
+                f = n.func
+                name = f.attr if isinstance(f, ast.Attribute) else (f.id if isinstance(f, ast.Name) else None)
+                if name is None or name in _PURE_BUILTINS or name in classes:
+                    continue
+                if name.startswith("__") and name.endswith("__"):
+                    continue
+                for q2, fn2 in _methods_named(tree, name):
+                    if q2 not in seen:
+                        work.append((q2, fn2))
+    _pure_cache[key] = (why is None, why)
+    if why is not None:
+        raise NotElementwise(why)
+    return True
